@@ -12,6 +12,7 @@ HandleArena g_handles;
 sigjmp_buf g_crash_jmp;
 volatile sig_atomic_t g_in_lib = 0;
 CrashInfo g_crash;
+volatile uint64_t g_call_seq = 0;
 
 // Sanitizer flavour: classify sanitizer deaths (exit code 77) and leave the
 // fault signals to the simulator's own handlers.
@@ -370,12 +371,36 @@ void install_crash_handlers() {
     sigaction(SIGFPE, &sa, nullptr);
 }
 
+// Liveness ("every call returns"): the library has no clock, so the budget is wall time of the host, generous enough
+// (seconds for calls that take microseconds) that only a genuine hang can exhaust it.
+#include <sys/time.h>
+static int g_wd_limit = 8; static uint64_t g_wd_last = ~0ULL; static int g_wd_stuck = 0;
+static void on_alarm(int, siginfo_t *, void *ucv) {
+    if (!g_in_lib) { g_wd_stuck = 0; g_wd_last = ~0ULL; return; }
+    if (g_call_seq != g_wd_last) { g_wd_last = g_call_seq; g_wd_stuck = 0; return; }
+    if (++g_wd_stuck < g_wd_limit) return;
+    g_wd_stuck = 0; g_wd_last = ~0ULL;
+    ucontext_t *uc = (ucontext_t *)ucv;
+    g_crash.sig = SIGALRM; g_crash.addr = 0; g_crash.pc = (uintptr_t)uc->uc_mcontext.gregs[REG_RIP];
+    g_crash.where = "the call did not return within the watchdog budget: hang, livelock or runaway loop";
+    siglongjmp(g_crash_jmp, 1);
+}
+void install_watchdog(int seconds) {
+    g_wd_limit = seconds < 2 ? 2 : seconds;
+    struct sigaction sa; memset(&sa, 0, sizeof sa);
+    sa.sa_sigaction = on_alarm; sa.sa_flags = SA_SIGINFO | SA_NODEFER | SA_RESTART; sigemptyset(&sa.sa_mask);
+    sigaction(SIGALRM, &sa, nullptr);
+    struct itimerval it; it.it_interval.tv_sec = 1; it.it_interval.tv_usec = 0; it.it_value = it.it_interval;
+    setitimer(ITIMER_REAL, &it, nullptr);
+}
+
 void seams_init() {
     g_heap.init_arena();
     for (int i = 0; i < A_NAREAS; ++i) g_area[i].init();
     g_handles.init();
     SimCPU::install();
     install_crash_handlers();
+    install_watchdog(8);
 }
 
 // ================================================================== determinism of addresses
